@@ -583,7 +583,7 @@ func c04StaleTextCause(ctx *Ctx, dir string, tf c04Files, cfg c04Cfg, showStdout
 		after := c04Run(ctx, filepath.Join(dir, "cause-default"), fixed.After, cfg, "default")
 		for _, x := range after.Diags {
 			if x.Key() == d.Key() {
-				return "C04/b/f-diag-not-in-default/after-ReplaceAfter-fix-in-same-file(confirmed)",
+				return "C04/b/f-diag-not-in-default/after-ReplaceAfter-fix-in-same-file(confirmed)/cause=" + MsgKind(c.Msg),
 					fmt.Sprintf("; cause: %q replaces text of that file with Replace/ReplaceAfter, which updates Line.Text only with -f/-F; once that fix alone is applied (pkglint -F --only %q) the default run prints the diagnostic too", c.Raw, pat)
 			}
 		}
@@ -731,6 +731,15 @@ func c04WholeRun(ctx *Ctx, res *Result, rng *Rng, ntrees int) {
 			c04Augment(j.rng.Fork(), tf, g.Pkgs, j.opts.Density, g.Features)
 			c04Augment2(j.rng.Fork(), tf, g.Pkgs, j.opts.Density, g.Features)
 		}
+		if i%2 == 1 {
+			// fixes that interact inside one aligned paragraph (c04_inter.go)
+			c04Augment3(j.rng.Fork(), tf, g.Pkgs, g.Features)
+			for k, n := range g.Features {
+				if strings.HasPrefix(k, "inter.") {
+					res.Count("whole.feature "+k, n)
+				}
+			}
+		}
 		for _, cfg := range c04Configs(ctx, j.rng, dir, tf, i) {
 			fs, obs := c04Evaluate(ctx, dir, tf, cfg)
 			res.mu.Lock()
@@ -793,6 +802,29 @@ func c04WholeRun(ctx *Ctx, res *Result, rng *Rng, ntrees int) {
 			}
 			for k := range kinds {
 				res.Count("whole.fixdiag "+k, 1)
+			}
+			// a paragraph that -f leaves to the next run (VaralignBlock.Finish gives
+			// up): the default run has an alignment note for a line of a file in
+			// which -f replaces text, and -f prints no alignment note for that line
+			{
+				showAlign := map[string]bool{}
+				for _, d := range show.Diags {
+					if strings.HasPrefix(d.Msg, "This variable value should be aligned") {
+						showAlign[fmt.Sprintf("%s:%d", d.Path, d.Line1)] = true
+					}
+				}
+				replaced := map[string]bool{}
+				for _, d := range show.Fixes {
+					if strings.HasPrefix(d.Msg, "Replacing ") {
+						replaced[d.Path] = true
+					}
+				}
+				for _, d := range obs.Outs["default"].Diags {
+					if strings.HasPrefix(d.Msg, "This variable value should be aligned") && replaced[d.Path] && !showAlign[fmt.Sprintf("%s:%d", d.Path, d.Line1)] {
+						res.Count("whole.f-leaves-paragraph-to-next-run", 1)
+						break
+					}
+				}
 			}
 			if len(fs) > 0 {
 				outcomes[i] = append(outcomes[i], outcome{fs, cfg, tf})
@@ -912,6 +944,11 @@ func runC04(ctx *Ctx) *Result {
 	}
 	c04Unit(ctx, res, rng.Fork(), nscripts)
 	c04WholeRun(ctx, res, rng.Fork(), ntrees)
+	nparas := 600
+	if ctx.Tier == "thorough" {
+		nparas = 20000
+	}
+	c04ParaUnit(ctx, res, rng.Fork(), nparas)
 	c04Floors(res)
 	return res
 }
@@ -951,6 +988,15 @@ func c04Floors(res *Result) {
 		floor("whole.target-with-AUTOFIX file "+k, 3)
 	}
 	floor("whole.target file ALTERNATIVES", 2)
+	floor("para.mode default finish-goes-on=true", 300)
+	floor("para.mode -f finish-goes-on=false", 50)
+	floor("para.mode -f finish-goes-on=true", 50)
+	floor("para.mode -F a line changed between Process and Finish", 50)
+	floor("whole.feature inter.crossing", 30)
+	floor("whole.feature inter.subst-dup-assign", 10)
+	floor("whole.feature inter.subst-sed-to-vars", 5)
+	floor("whole.fixdiag All but the first assignment to _ should use the _ operator.", 10)
+	floor("whole.f-leaves-paragraph-to-next-run", 20)
 	floor("whole.target directory", 50)
 	floor("whole.target several targets", 50)
 	for _, a := range []string{"Replacing _ with _.", "Inserting a line _ above this line.", "Deleting this line.", "Sorting the whole file."} {
@@ -963,6 +1009,8 @@ func replayC04(ctx *Ctx, rep map[string]any) *Result {
 	switch rep["kind"] {
 	case "whole":
 		c04ReplayWhole(ctx, res, rep)
+	case "para":
+		c04CheckParas(ctx, res, []c04Para{c04ParaFromReplay(rep)})
 	case "script":
 		dir := filepath.Join(ctx.Work, "c04unit")
 		src, _ := rep["source"].(bool)
